@@ -48,6 +48,11 @@ pub struct TunnelCase {
     /// must go on delivering
     #[serde(default)]
     pub target_restart_after: Option<u8>,
+    /// Some(k): after exchange k the application goes on from a new socket (same address, another
+    /// port - a per-query resolver, a restarted application): answers follow it there, the old
+    /// socket gets nothing more
+    #[serde(default)]
+    pub new_app_socket_after: Option<u8>,
 }
 
 pub struct TunnelFam;
@@ -66,8 +71,8 @@ impl Family for TunnelFam {
         "tunnel"
     }
     fn strategy(&self, _tier: Tier) -> BoxedStrategy<TunnelCase> {
-        (proptest::collection::vec((size_strategy(), proptest::collection::vec(size_strategy(), 0..3)), 1..8), proptest::bool::weighted(0.25), proptest::option::weighted(0.3, 0u8..3), proptest::option::weighted(0.25, 0u8..3))
-            .prop_map(|(exchanges, v6_target, stranger_after, target_restart_after)| TunnelCase { exchanges, v6_target, stranger_after, target_restart_after })
+        (proptest::collection::vec((size_strategy(), proptest::collection::vec(size_strategy(), 0..3)), 1..8), proptest::bool::weighted(0.25), proptest::option::weighted(0.3, 0u8..3), proptest::option::weighted(0.25, 0u8..3), proptest::option::weighted(0.25, 0u8..3))
+            .prop_map(|(exchanges, v6_target, stranger_after, target_restart_after, new_app_socket_after)| TunnelCase { exchanges, v6_target, stranger_after, target_restart_after, new_app_socket_after })
             .boxed()
     }
     fn case_budget_s(&self) -> u64 {
@@ -94,7 +99,8 @@ impl Family for TunnelFam {
                     Ok(Err(e)) => return Err(Fail::plain("C15.one", format!("create_udp_proxy failed: {e}"))),
                     Err(_) => return Err(Fail::plain("C15.one", "create_udp_proxy did not return")),
                 };
-                let app = UdpSocket::bind(SocketAddr::new(IpAddr::V4(worker_ip()), 0)).await.map_err(|e| infra(format!("app udp bind: {e}")))?;
+                let mut app = UdpSocket::bind(SocketAddr::new(IpAddr::V4(worker_ip()), 0)).await.map_err(|e| infra(format!("app udp bind: {e}")))?;
+                let mut old_apps: Vec<UdpSocket> = Vec::new();
                 let mut relay_addr: Option<SocketAddr> = None;
                 let stranger = UdpSocket::bind(SocketAddr::new(if target.addr.is_ipv6() { IpAddr::V6(std::net::Ipv6Addr::LOCALHOST) } else { IpAddr::V4(worker_ip_n(22)) }, 0)).await.map_err(|e| infra(format!("stranger udp bind: {e}")))?;
                 let mut stray_sent = false;
@@ -129,6 +135,10 @@ impl Family for TunnelFam {
                             None => return Err(Fail::plain("C15.one", format!("reply #{j} to datagram #{k} ({rs} bytes) never reached the application"))),
                         }
                     }
+                    if case.new_app_socket_after == Some(k as u8) {
+                        let fresh = UdpSocket::bind(SocketAddr::new(IpAddr::V4(worker_ip()), 0)).await.map_err(|e| infra(format!("app udp bind: {e}")))?;
+                        old_apps.push(std::mem::replace(&mut app, fresh));
+                    }
                     if case.target_restart_after == Some(k as u8) {
                         // the target goes away, one datagram runs into the closed port, the target returns
                         let sock_keepalive = target.sock.clone();
@@ -156,6 +166,11 @@ impl Family for TunnelFam {
                         // application from it is taken off the socket and not judged
                         tokio::time::sleep(Duration::from_millis(100)).await;
                         while recv_dgram(&app, 100).await.is_some() {}
+                        // (the relay answers to where it last heard the application: a socket it has left, if
+                        // it has not sent from the new one yet)
+                        for o in &old_apps {
+                            while recv_dgram(o, 30).await.is_some() {}
+                        }
                     }
                 }
                 if stray_sent {
@@ -163,6 +178,9 @@ impl Family for TunnelFam {
                 }
                 // nothing else arrives anywhere
                 ensure!(recv_dgram(&app, 50).await.is_none(), "C15.none", "the application received a datagram nobody sent");
+                for o in &old_apps {
+                    ensure!(recv_dgram(o, 30).await.is_none(), "C15.none", "a datagram was delivered to the socket the application had used before it moved on to a new one");
+                }
                 let late = restarted && target.received.lock().unwrap().iter().any(|(_, d)| d == b"sent-while-the-target-was-away");
                 ensure!(target.count() == case.exchanges.len() + late as usize, "C15.none", "the target received {} datagrams, {} were sent", target.count(), case.exchanges.len() + late as usize);
                 Ok(())
@@ -180,6 +198,7 @@ impl Family for TunnelFam {
         out.class_if(case.v6_target, "ipv6-target");
         out.class_if(case.stranger_after.is_some_and(|k| (k as usize) + 1 < case.exchanges.len()), "stray-datagram-then-more-traffic");
         out.class_if(case.target_restart_after.is_some_and(|k| (k as usize) + 1 < case.exchanges.len()), "target-away-for-a-moment-then-more-traffic");
+        out.class_if(case.new_app_socket_after.is_some_and(|k| (k as usize) + 1 < case.exchanges.len()), "application-moves-to-a-new-socket");
         Ok(out)
     }
 }
